@@ -201,8 +201,20 @@ def _mut(params, env=None):
 HARNESSES = {"confine": _factory, "confine~no-boundary": _mut}
 
 
+def _norm_sym(sym):
+    import re
+    sym = sym or ""
+    if sym.startswith("engine not quiet"):
+        return "no-quiescence"
+    return re.sub(r"side \d.*", "", sym).strip()
+
+
 def replay(harness, params, model):
-    return std_replay(HARNESSES[harness], harness, params, model)
+    r = std_replay(HARNESSES[harness], harness, params, model)
+    if r.get("reproduced") and isinstance(r.get("sig"), dict):
+        r["sig"]["symptom"] = _norm_sym(r["sig"].get("symptom"))
+        r["sig"]["variant"] = params["variant"]
+    return r
 
 
 def signature(harness, params, rec):
